@@ -45,7 +45,7 @@ PROBES = [
     "abort_as_KeyboardInterrupt", "recompute_after_other_engine_used_same_objects",
     "fits_budget_exactly", "mixed_fresh_and_used_labels", "nodes_called_with_same_list_object",
     "layers_ge_4", "all_labels_at_one_position", "list_edited_in_place_and_handed_over_again",
-    "subset_of_used_labels",
+    "subset_of_used_labels", "clones_of_laid_out_labels",
 ]
 
 RULE = {
@@ -272,7 +272,7 @@ def gen_plan(rng, tier):
         elif r < 0.5:
             s = rng.randrange(nsets)
             mode = rng.choice(["fresh", "fresh", "same", "permute", "permute", "handover", "mixed", "reversed",
-                               "same_list", "inplace", "inplace", "subset", "subset", "sorted"])
+                               "same_list", "inplace", "inplace", "subset", "subset", "sorted", "clones"])
             ops.append(["set_labels", e, s, mode, rng.randrange(1 << 30)])
             engine_set[e] = s
         elif r < 0.6:
@@ -724,6 +724,11 @@ def _run(plan):
                     bump("probe:mixed_fresh_and_used_labels")
                 lst = list(objs[s])
                 spec = [list(t) for t in plan["sets"][s]]
+                if mode_eff == "clones":
+                    # copies made with the public Node.clone(): new objects that carry
+                    # the originals' current position and layer number
+                    lst = [n.clone() for n in lst]
+                    bump("probe:clones_of_laid_out_labels")
                 if mode_eff == "subset" and len(lst) > 1:
                     # the caller drops some labels and lays the remaining objects out again
                     r = random.Random(seed)
